@@ -112,6 +112,17 @@ def gen(rng, tier):
                 m[off:off + 4] = rng.bytes(4)
                 if any(m):
                     add(op="mask", ct=ct.hex(), mask=bytes(m).hex())
+        # windows whose CONTENT is special: the error pattern equals the bytes it hits (the field becomes all zero), their
+        # complement (all ones), or the field's own value shifted by one byte - for every 4-byte field of the envelope
+        # (magic, version, every payload window, trailer) and every 1..4-byte window
+        for width in (1, 2, 3, 4):
+            for off in range(0, len(env) - width + 1):
+                for kind in range(3):
+                    m = bytearray(len(env))
+                    seg = env[off:off + width]
+                    m[off:off + width] = seg if kind == 0 else bytes(b ^ 0xFF for b in seg) if kind == 1 else bytes(seg[1:] + seg[:1])
+                    if any(m):
+                        add(op="mask", ct=ct.hex(), mask=bytes(m).hex())
         # random bursts of span <= 32 at every start
         for start in range(nb):
             for _ in range(6 if thorough else 1):
